@@ -8,4 +8,3 @@ import XzVerif.Props.C07
 #print axioms Props.C07.C07_lazy_reader_reads_every_legal_stream_unknown
 #print axioms Props.C07.C07_source_header_fields
 #print axioms Props.C07.C07_source_validDictCap
-#print axioms Props.C07.C07_source_translation_complete
